@@ -338,6 +338,129 @@ def make_xyz(oid, order, tiers=("quick", "thorough"), cost=3):
                       tiers=tiers, cost=cost, timeout_s=1500, query_timeout_s=300)
 
 
+# ------------------------------------------------------------------ stored Cartesian centres of arbitrary length; Welzl centres
+def make_stored_centres(oid, kind):
+    """the source supplies face (edge) centres as xyz of arbitrary positive length and no lon/lat: the derived lon/lat are those of the NORMALISED vector
+    (reference: the library's own xyz->lonlat conversion with normalisation, applied by the harness to the same terms; C04.normalize.* decide that routine)"""
+    n_el = N_FACE if kind == "face" else None
+
+    def setup(ctx):
+        ctx.const("kind", kind)
+        lon, lat = C.default_lonlat(N_NODE)
+        _, E = C.ref_edges(ROWS)
+        E = sorted(sorted(p) for p in E)
+        n = N_FACE if kind == "face" else len(E)
+        X = [[z3.Real(f"c{a}_{i}") for i in range(n)] for a in "xyz"]
+        for col in X:
+            for v in col:
+                ctx.solver.add(v >= -3, v <= 3)
+        for a, col in zip("xyz", X):
+            ctx.eng.declare("c" + a, col)
+        return lon, lat, E, X
+
+    def build(lon, lat, E, X, cl):
+        vars_ = {"node_lon": (["n_node"], list(lon)), "node_lat": (["n_node"], list(lat)),
+                 "face_node_connectivity": (["n_face", "n_max_face_nodes"], ROWS, C.FN_ATTRS)}
+        dim = "n_face" if kind == "face" else "n_edge"
+        if kind == "edge":
+            vars_["edge_node_connectivity"] = (["n_edge", "two"], E, {"cf_role": "edge_node_connectivity", "_FillValue": C.F, "start_index": 0})
+        for a, col in zip("xyz", X):
+            vars_[f"{kind}_{a}"] = ([dim], col)
+        return cl(vars_)
+
+    def run(ctx, inp):
+        lon, lat, E, X = inp
+        symnp.SQRT_MODE[0] = "uf"
+        sc.NL_UF[0] = True
+        sc.MOD_MODE[0] = "witness"
+        try:
+            g = build(lon, lat, E, X, C.clone_grid_from)
+            glon, glat = _vals(getattr(g, kind + "_lon")), _vals(getattr(g, kind + "_lat"))
+            conv = world().get("uxarray.grid.coordinates", "_xyz_to_lonlat_deg")
+            A = lambda col: symnp.SArr.new([mk(v) for v in col], (len(col),), None, symnp.float64)      # noqa: E731
+            elon, elat = conv(A(X[0]), A(X[1]), A(X[2]))          # normalize=True is the routine's default
+            elon, elat = [_zr(v) for v in elon.flat_list()], [_zr(v) for v in elat.flat_list()]
+        finally:
+            symnp.SQRT_MODE[0] = "witness"
+        cl = []
+        for i in range(len(glon)):
+            cl.append(z3.And(glat[i] == elat[i], z3.Or(glon[i] == elon[i], glon[i] == elon[i] - 360), glon[i] >= -180, glon[i] <= 180))
+        ctx.prove(f"{kind} lon/lat derived from stored Cartesian centres are those of the normalised vector, reported in [-180, 180]", z3.And(*cl))
+        gx = [_vals(getattr(g, f"{kind}_{a}")) for a in "xyz"]
+        ctx.prove("the stored Cartesian centres are reported as supplied", z3.And(*[gx[a][i] == X[a][i] for a in range(3) for i in range(len(X[0]))]))
+
+    def replay(v):
+        lon, lat = C.default_lonlat(N_NODE)
+        _, E = C.ref_edges(ROWS)
+        E = sorted(sorted(p) for p in E)
+        X = [np.array([float(t) for t in v["c" + a]]) for a in "xyz"]
+        nrm = np.sqrt(X[0] ** 2 + X[1] ** 2 + X[2] ** 2)
+        if np.any(nrm < 0.05):
+            return None
+        g = build(lon, lat, E, [list(c) for c in X], C.real_grid_from)
+        lo, la = getattr(g, kind + "_lon").values, getattr(g, kind + "_lat").values
+        ok, d = _same_point(lo, la, X[0], X[1], X[2], tol=2e-6)
+        snap = np.abs(X[2] / nrm) > 1 - 1e-7
+        if not ok and not np.all(snap):
+            ux, uy, uz = _real_unit(lo, la)
+            dd = np.sqrt((ux - X[0] / nrm) ** 2 + (uy - X[1] / nrm) ** 2 + (uz - X[2] / nrm) ** 2)
+            if np.any(dd[~snap] > 2e-6):
+                return f"stored {kind} centres xyz {[c.tolist() for c in X]} (lengths {nrm.tolist()}): reported lon/lat {lo.tolist()},{la.tolist()} denote another direction (deviation {d:.3g})"
+        if np.any(lo > 180 + 1e-9) or np.any(lo < -180 - 1e-9):
+            return f"{kind}_lon out of range: {lo.tolist()}"
+        return None
+
+    return Obligation(oid, f"{kind} centres supplied as Cartesian vectors of arbitrary length: derived lon/lat", setup, run, replay, exact=False, functions=FUNCS,
+                      bounds="centre components in [-3,3]; fixed node positions", stubs=["arctan2, arcsin, sqrt, products uninterpreted (data-flow comparison with the library's normalising conversion)"],
+                      max_paths=400)
+
+
+def make_welzl(oid):
+    """construct_face_centers(method='welzl') with the smallest-enclosing-circle search replaced by arbitrary centre coordinates (degrees): the stored
+    face_x/y/z are the unit vectors of the stored face_lon/lat"""
+    def setup(ctx):
+        cl = [ctx.real(f"wlon_{f}", -180, 180) for f in range(N_FACE)]
+        ct = [ctx.real(f"wlat_{f}", -90, 90) for f in range(N_FACE)]
+        return cl, ct
+
+    def run(ctx, inp):
+        cl, ct = inp
+        symnp.SQRT_MODE[0] = "uf"
+        sc.NL_UF[0] = True
+        sc.MOD_MODE[0] = "witness"
+        gc = world().G["uxarray.grid.coordinates"]
+        saved = gc["_construct_face_centerpoints"]
+        gc["_construct_face_centerpoints"] = lambda node_lon, node_lat, face_nodes, n_nodes_per_face: (C.sarr_1d(cl, symnp.float64), C.sarr_1d(ct, symnp.float64))
+        try:
+            lon, lat = C.default_lonlat(N_NODE)
+            g = C.clone_grid_from({"node_lon": (["n_node"], list(lon)), "node_lat": (["n_node"], list(lat)),
+                                   "face_node_connectivity": (["n_face", "n_max_face_nodes"], ROWS, C.FN_ATTRS)})
+            g.construct_face_centers(method="welzl")
+            got = {n: _vals(getattr(g, n)) for n in ("face_lon", "face_lat", "face_x", "face_y", "face_z")}
+        finally:
+            gc["_construct_face_centerpoints"] = saved
+            symnp.SQRT_MODE[0] = "witness"
+        clm = []
+        for f in range(N_FACE):
+            ux = _unit(got["face_lon"][f], got["face_lat"][f])
+            clm.append(z3.And(got["face_x"][f] == ux[0], got["face_y"][f] == ux[1], got["face_z"][f] == ux[2]))
+        ctx.prove("Welzl centres: face_x/y/z is the unit vector of the stored face_lon/face_lat (degrees converted once)", z3.And(*clm))
+
+    def replay(v):
+        import uxarray as ux
+        lon, lat = C.default_lonlat(N_NODE)
+        g = C.real_grid(ROWS, lon, lat)
+        g.construct_face_centers(method="welzl")
+        ok, d = _same_point(g.face_lon.values, g.face_lat.values, g.face_x.values, g.face_y.values, g.face_z.values)
+        if not ok:
+            return (f"construct_face_centers('welzl'): face lon/lat {g.face_lon.values.tolist()},{g.face_lat.values.tolist()} and face xyz "
+                    f"{[g.face_x.values.tolist(), g.face_y.values.tolist(), g.face_z.values.tolist()]} denote different points (deviation {d:.3g})")
+        return None
+
+    return Obligation(oid, "construct_face_centers('welzl'): Cartesian and spherical centres denote the same points", setup, run, replay, exact=False, functions=FUNCS + ["Grid.construct_face_centers", "coordinates._populate_face_centerpoints"],
+                      bounds="arbitrary centre positions (the enclosing-circle search itself is abstracted)", stubs=["_construct_face_centerpoints -> arbitrary (lon, lat) in degrees", "trig uninterpreted"])
+
+
 # ------------------------------------------------------------------ normalisation
 def make_normalize(oid, which, tiers=("quick", "thorough")):
     """source ships xyz for nodes and for face centres with arbitrary positive lengths; `which` says which are already unit"""
@@ -418,6 +541,7 @@ def obligations(tier):
         make_xyz("C04.xyz.lon_first", "lon_first"),
         make_xyz("C04.xyz.lat_first", "lat_first"),
         make_xyz("C04.xyz.face_first", "face_first", tiers=("thorough",)),
+        make_stored_centres("C04.stored_xyz.face", "face"), make_stored_centres("C04.stored_xyz.edge", "edge"), make_welzl("C04.welzl"),
         make_normalize("C04.normalize.none_unit", ()),
         make_normalize("C04.normalize.nodes_unit", ("node",)),
         make_normalize("C04.normalize.faces_unit", ("face",)),
